@@ -231,6 +231,10 @@ def audit(modules, rd):
     tok = forbidden_tokens(lean_sources())
     if tok:
         bad += tok
+    # the toolchain's independent re-checker replays the compiled modules through the kernel once more
+    rc, out = sh(["lake", "env", "leanchecker"] + list(modules), cwd=LEAN, timeout=1800)
+    if rc != 0:
+        bad.append("leanchecker rejects %s: %s" % (modules, out.strip().split("\n")[-1][:200]))
     return thms, bad
 
 
